@@ -518,3 +518,11 @@ def x13(cx: Cx, ob: Ob) -> None:
     from ..rules import no_fields_set_dependence
 
     no_fields_set_dependence(cx, ob)
+
+
+@obligation("C09-X4", "'either raises ValueError because a later record bridges two earlier ones, or returns a converter': chain and get_subconverter hand their records to the strict constructor, which must reject exactly the record sets in which a name is claimed by two records - both duplicate detectors compare by exact equality over all pairs of DIFFERENT records (shared with C04-D1/D2); a detector that reports anything else turns a legal union into an undocumented DuplicatePrefixes", floor=4)
+def x4(cx: Cx, ob: Ob) -> None:
+    from .c04 import d1 as c04_order, d2 as c04_matrix
+
+    c04_order(cx, ob)
+    c04_matrix(cx, ob)
